@@ -33,15 +33,24 @@ pub struct Recorder {
     pub list: Mutex<Vec<Violation>>,
     pub counts: Mutex<BTreeMap<String, u64>>,
     pub total: AtomicU64,
+    /// open findings of the property being checked: matched at insertion so that known instances
+    /// can never crowd an unlisted violation out of the kept list
+    pub known: Vec<Known>,
+    pub prop: String,
+    /// id -> (instances, first example)
+    pub known_hits: Mutex<BTreeMap<String, (u64, String)>>,
 }
 
 impl Recorder {
-    pub fn new(keep: usize) -> Self {
+    pub fn new(keep: usize, prop: &str, known: Vec<Known>) -> Self {
         Recorder {
             keep,
             list: Mutex::new(Vec::new()),
             counts: Mutex::new(BTreeMap::new()),
             total: AtomicU64::new(0),
+            known,
+            prop: prop.to_string(),
+            known_hits: Mutex::new(BTreeMap::new()),
         }
     }
     pub fn add(&self, v: Violation) {
@@ -49,6 +58,12 @@ impl Recorder {
         {
             let mut c = self.counts.lock().unwrap();
             *c.entry(format!("{}/{}", v.ev, v.kind.name())).or_insert(0) += 1;
+        }
+        if let Some(k) = match_known(&self.known, &self.prop, &v) {
+            let mut h = self.known_hits.lock().unwrap();
+            let e = h.entry(k.id.clone()).or_insert((0, format!("{:?} placeholder {}", v.input, v.at_show)));
+            e.0 += 1;
+            return;
         }
         let mut l = self.list.lock().unwrap();
         if l.len() < self.keep * 4 {
